@@ -7,6 +7,7 @@ Open Scope N_scope.
 From ChiaV.Cond Require Import Invariants Syntax Collect Rules Refine.
 From ChiaV.Cond Require Import Guards Accept Totals Final.
 From ChiaV.Cond Require Import Local LocalRules Declarative.
+From ChiaV.Cond Require Import Summary.
 From ChiaV.Props Require Import C01.
 Check C01_opcodes_are_consensus :
   [REMARK; AGG_SIG_PARENT; AGG_SIG_PUZZLE; AGG_SIG_AMOUNT; AGG_SIG_PUZZLE_AMOUNT; AGG_SIG_PARENT_AMOUNT;
@@ -81,3 +82,25 @@ Check C01_accept_iff_rules :
     Forall (LocalRules vk K fl H) ps /\
     BundleRules H ps.
 Print Assumptions C01_accept_iff_rules.
+Check C01_accepted_summary :
+  forall vk H K fl V t max_cost clvm_cost b spends pairs,
+  parse_spends vk H K fl V t max_cost clvm_cost = Ok (b, spends, pairs) ->
+  exists ps,
+    tree_syntax fl t = Ok ps /\
+    Forall2 (fun s p => sident s = pident H p /\
+                        sp_seconds_relative s = fold_left omax (flat_map c_sr (kn p)) None /\
+                        sp_before_seconds_relative s = fold_left omin (flat_map c_bsr (kn p)) None /\
+                        sp_height_relative s = fold_left omax (flat_map c_hr (kn p)) None /\
+                        sp_before_height_relative s = fold_left omin (flat_map c_bhr (kn p)) None /\
+                        sp_birth_seconds s = fold_left (fun _ v => Some v) (flat_map c_bsec (kn p)) None /\
+                        sp_birth_height s = fold_left (fun _ v => Some v) (flat_map c_bhei (kn p)) None /\
+                        sp_agg_sig s = flat_map c_sig (kn p) /\
+                        sp_has_relative s = existsb relative_class (kn p)) spends ps /\
+    b_removal b = tot_removal ps /\ b_addition b = tot_addition ps /\ b_reserve_fee b = tot_fee ps /\
+    b_height_absolute b = fold_left N.max (flat_map c_ha (all_known ps)) 0 /\
+    b_seconds_absolute b = fold_left N.max (flat_map c_sa (all_known ps)) 0 /\
+    b_before_height_absolute b = fold_left omin (flat_map c_bha (all_known ps)) None /\
+    b_before_seconds_absolute b = fold_left omin (flat_map c_bsa (all_known ps)) None /\
+    b_agg_sig_unsafe b = all_unsafe ps /\
+    pairs = (if f_dont_validate fl then [] else all_pairs H K ps).
+Print Assumptions C01_accepted_summary.
